@@ -602,7 +602,7 @@ def gen_edit(rng, circ, malformed=False, allow_measz=True, max_regs=6, label_poo
     qregs = [("e", i) for i in range(regs["e"])] + [("p", i) for i in range(regs["p"])]
     nreg = sum(regs.values())
     if malformed:
-        k = rng.choice(["gap", "nedges", "rm-absent", "rep-absent", "rep-regs", "size", "noq"])
+        k = rng.choice(["gap", "nedges", "rm-absent", "rep-absent", "rep-regs", "rep-cregs", "size", "noq"])
         if k == "gap":
             t = rng.choice("ep")
             tok = one_q_token("Hadamard", t, regs[t] + 1 + rng.randrange(2)) if rng.random() < 0.5 else \
@@ -619,6 +619,13 @@ def gen_edit(rng, circ, malformed=False, allow_measz=True, max_regs=6, label_poo
             n = rng.choice(op_nodes(circ))
             t, r = rng.choice(qregs)
             return ("P", n, one_q_token("SigmaX", t, r + 1))
+        if k == "rep-cregs":
+            cl = [n for n in op_nodes(circ) if circ.dag.nodes[n]["op"].c_registers and len(circ.dag.nodes[n]["op"].q_registers) == 2]
+            if cl:
+                n = rng.choice(cl)
+                op = circ.dag.nodes[n]["op"]
+                qs = list(zip(op.q_registers_type, op.q_registers))
+                return ("P", n, two_q_token(rng.choice(CLASSICAL), qs[0], qs[1], creg=op.c_registers[0] + 1))
         if k == "size":
             return ("E", rng.choice("epc"), rng.choice([0, 2, 3]))
         return ("A", "Input:*:0:*:*")
